@@ -396,3 +396,14 @@ package mapping
 //@ func (u *Unmarshaler) fillSliceValue
 //@   property C17
 //@   call setValueFromString#1: assert boxed(arg_str) == value && arg_kind == baseKind
+
+// C08 slices are filled element by element into a slice made for this target (reflect.MakeSlice): what is set into the target
+// never is the source value itself - neither the caller's input slice nor the process-wide cached parse of a default
+//@ func (u *Unmarshaler) fillSlice
+//@   property C08
+//@   flag callbacks_noheap
+//@   ghost at after MakeSlice#0: m0 = ret
+//@   ghost at after MakeSlice#1: m1 = ret
+//@   call Set#0: assert arg_x == m0
+//@   call Set#1: assert arg_x == m1
+//@   loop 0: invariant true
